@@ -7,6 +7,22 @@ HERE = os.path.dirname(os.path.abspath(__file__))
 
 # property -> (level category, engine/world, technique, level text, level note)
 CHECKS = {
+ "C18": ("exploration", "DLQ",
+   "seeded deterministic simulation of the real download queue and peer bookkeeping inside a synctest bubble: the simulator plays header processor, fetcher, remote peers (complete/partial/empty/wrong/reordered/duplicate/unsolicited/stalled), expirer, dropper, importer and clock one call at a time; history oracle on Results plus pool census after every call; bounded-liveness quiet phase",
+   "Seeded search over interleavings and peer fault sequences on the real queue (full and fast sync). Results must be gap-free, repeat-free, in order from the origin, each with a body matching the header's tx root, and nothing is released for a block never honestly delivered; after faults stop and one honest peer keeps answering, the range completes within a generous step bound. Sampling, not proof.",
+   "Not driven: Downloader.Synchronise goroutine machinery, the real PeerSet (map-order), you/fetcher, header skeleton, light sync. Revoke/Cancel are driven per their doc comments (no production caller in this tree)."),
+ "C03": ("exploration", "NET(+VOTER)",
+   "deterministic simulation: real consensus engines under seeded schedules and faults; shadow tally of every delivered vote frame per node as reference model; every announced commit re-verified by the other nodes' real import path",
+   "Seeded search over schedules/fault sequences of the whole engine. The simulator knows exactly which vote frames it delivered to which node and keeps a shadow tally (sender -> verified weight per (round, index, kind, block)); a precommit signed without a delivered prevote quorum for exactly that block, a commit the node's own chain or another honest node rejects, or two commits at one height are violations. Sampling, not proof.",
+   "Trusts: the weight carried in a vote frame that the real engine accepted (sortition proofs are verified by the engine itself before the frame counts; the VOTER part re-verifies them independently); quorum = floor(0.685*committee size) computed from the protocol table, not from OverThreshold."),
+ "C12": ("exploration", "VERSION",
+   "deterministic multi-party simulation: seeded proposer sequences (honest parties with heterogeneous locally-known version tables, Byzantine proposers mutating the five version fields) over the real builder/verifier, checked against a small reference state machine of the upgrade protocol",
+   "Seeded search over header histories with adversarial field choices restricted to what every honest verifier accepts, for scaled-down parameter tables. The reference model is written from the property text; a violation must hold under both readings of the voting window boundary. Sampling, not proof.",
+   "Trusts: nothing of the implementation in the oracle. Honest statement of fit: the two functions are pure; the adversity is Byzantine choice and node heterogeneity, no clock/disk/scheduler exists to simulate (DESIGN.md C12). MinUpgradeWaitRounds=0 (outside production ranges) is excluded; see DESIGN.md."),
+ "C14": ("exploration", "NET seams",
+   "seam monitors on the deterministic NET simulation: decode/re-encode identity of every frame and typed disk record honest nodes emit; structure-aware and byte-level corruption of real frames injected as a network fault (must be rejected or canonical, never panic, bounded allocation)",
+   "Narrow by design: values are those the simulated system produces plus seeded mutations of them. Decides emit-side canonicity/round-trip for consensus messages, proposed blocks, votes, headers, bodies, receipts and vote records, and accept-side canonicity and crash-safety of the consensus message path on hostile bytes.",
+   "Not decided: types and value shapes the simulated system never produces (staking messages, evidences, validator records) — a simulator cannot explore a codec's input space; stated in DESIGN.md C14."),
  "C02": ("exploration", "NET+VOTEDB",
    "deterministic simulation: real consensus engines on simulated disks/network/clock in one synctest bubble with seeded schedules, message faults, partitions and crash/restart (also at the k-th disk write); history oracle over every signed vote; plus exhaustive-ish seeded API histories of the vote database with restarts against a reference model of grants",
    "Seeded search over schedules and fault sequences of 4-5 real ucon engines (NET) and over context/vote/restart histories of the real VoteDB (VOTEDB). Every vote that leaves an honest node enters a per-validator history that survives restarts; conflicting votes or excess next-index votes in one (round, index) are violations, minimised and replayed in a fresh process. Sampling, not proof.",
